@@ -488,6 +488,23 @@ func (m *Machine) strIndex(s Str, i *T) *T {
 	if i.IsC {
 		return s.B[i.C]
 	}
+	if constLeafIte(i, 300) {
+		allC := true
+		for _, b := range s.B {
+			if !b.IsC {
+				allC = false
+				break
+			}
+		}
+		if allC {
+			return mapIteLeaves(i, func(c *T) *T {
+				if c.C < uint64(len(s.B)) {
+					return s.B[c.C]
+				}
+				return BV(8, 0)
+			})
+		}
+	}
 	{
 		vs := make([]Value, len(s.B))
 		for k := range vs {
@@ -523,6 +540,11 @@ func (m *Machine) sliceOp(base Value, lo, hi, mx *T) Value {
 		m.check(Cmp("bvule", lo, hi), "slice bounds out of range")
 		if lo.IsC && hi.IsC {
 			return Str{B: b.B[lo.C:hi.C]}
+		}
+		if constLeafIte(lo, 300) || constLeafIte(hi, 300) {
+			// table-driven bounds (stringer index tables): case split on the few feasible bounds
+			l, h := m.conc(lo, 512), m.conc(hi, 512)
+			return Str{B: b.B[l:h]}
 		}
 		ln := int(m.conc(Bin("bvsub", hi, lo), 4096))
 		r := Str{B: make([]*T, ln)}
@@ -598,6 +620,12 @@ func (m *Machine) lookup(x *ssa.Lookup, base, key Value) Value {
 				}
 			} else {
 				kt := x.X.Type().Underlying().(*types.Map).Key()
+				mergeable := true
+				switch zero.(type) {
+				case *T, Struct, Array:
+				default:
+					mergeable = false
+				}
 				for i := len(b.M.keys) - 1; i >= 0; i-- {
 					ks := b.M.keys[i]
 					rk := b.M.kraw[ks]
@@ -605,6 +633,14 @@ func (m *Machine) lookup(x *ssa.Lookup, base, key Value) Value {
 						continue
 					}
 					c := m.binop(token.EQL, kt, key, rk, kt).(*T)
+					if !mergeable {
+						// values that cannot be joined by ite (strings of different lengths, pointers): case split on the key
+						if m.decide(c) {
+							found, val = BoolC(true), b.M.kv[ks]
+							break
+						}
+						continue
+					}
 					found = Or(c, found)
 					val = iteValue(c, b.M.kv[ks], val)
 				}
